@@ -128,6 +128,10 @@ func cases(run *vf.Run) ([]json.RawMessage, error) {
 			Verify:     rng.Intn(3) == 0,
 			Reset:      rng.Intn(2) == 0,
 		}
+		s.StormRounds = 40
+		if run.Tier == "thorough" {
+			s.StormRounds = 150
+		}
 		if os.Getenv("VERIF_C12_NO_RESET") != "" { // development aid: leave ResetLocalState out of the operation set
 			s.Reset = false
 		}
